@@ -6,7 +6,7 @@ import z3
 
 from vlib import evidence, leafrt, runner, specmodel, xh
 
-PREAMBLE = ["from vlib import leafrt as R", "R.field_cases()", "R.annot_cases()", "from vlib import ctxlemmas as X", "X.value_cases()"]
+PREAMBLE = ["from vlib import leafrt as R", "R.field_cases()", "R.annot_cases()", "R.mixed_enum_sites()", "from vlib import ctxlemmas as X", "X.value_cases()"]
 SPEC = specmodel.get()
 
 
@@ -101,6 +101,8 @@ def lemmas(tier):
                 # the same number written as a JSON double (3.0): accepted iff it equals a declared value
                 body = ["a = R.conv_accepts(%r, float(x))" % c.id, "m = x in %r" % (vals,), "return a[0] == m and (not m or a[1] == x)"]
                 out.append(xh.Lemma("ffloat_%s" % c.id, params, body, pre=pre + ["-(2**40) <= x <= 2**40"], meta=dict(meta, what="closed enum property given as an integral JSON double: accepted iff declared value", as_float=True)))
+    for mid, m in leafrt.mixed_enum_sites().items():
+        out.append(xh.Lemma("mixed_%s" % mid, [("k", "int")], ["return R.mixed_accepts_declared(%r, k)" % mid], pre=["0 <= k < %d" % len(m["values"])], meta={"site": "%s (%s next to other alternatives)" % (m["paths"][0], m["enum"]), "case": mid, "level": "mixed", "what": "every declared value is accepted and kept where the enumeration is one alternative of a union with classes"}))
     from vlib import ctxlemmas
 
     for l in ctxlemmas.lemmas(tier, kinds=("enum_str", "enum_int"), removal=False):
@@ -132,6 +134,22 @@ def check(tier):
             from vlib import ctxlemmas
 
             if ctxlemmas.replay(chk, l, r):
+                continue
+            if l.meta.get("level") == "mixed":
+                m = leafrt.mixed_enum_sites()[l.meta["case"]]
+                v = m["values"][r.args["k"]]
+                cname, attr = m["paths"][0].split(".")
+                wire = {specmodel.snake(p["name"]): p["name"] for p in __import__("vlib.classlemmas", fromlist=["x"]).spec_classes().get(cname, {"props": []})["props"]}.get(attr, attr)
+                code = (
+                    "from lsprotocol import converters, types\nimport attrs\n"
+                    "def replay():\n    c = converters.get_converter()\n    a = getattr(attrs.fields(types.%s), %r).type\n    try:\n        r = c.structure(%r, a)\n    except Exception as e:\n        return (False, 'declared value %r rejected: %%s' %% type(e).__name__)\n"
+                    "    return (r is not None and r == %r, 'declared value %r of %s came back as %%r at %s.%s' %% (r,))\n"
+                ) % (cname, attr, v, v, v, v, m["enum"], cname, wire)
+                ok, detail = leafrt.run_code(code)
+                if not ok:
+                    chk.violation("%s: %s" % (site, detail), {"kind": "python", "code": code, "site": site, "args": r.args})
+                else:
+                    chk.harness_error("counterexample for %s did not reproduce" % site)
                 continue
             v = r.args.get("x", r.args.get("s"))
             if l.meta.get("as_float"):
